@@ -60,6 +60,10 @@ pub struct Cfg {
     /// inside poll_next (and returns Pending), so the pipe is woken while it is still polling
     #[serde(default)]
     pub stream_self_wakes: u8,
+    /// the nested sync steps of plain jobs are performed by scope guards: at the end of the job, or while it unwinds
+    /// from a panic (a destructor that synchronises with another object)
+    #[serde(default)]
+    pub guard_syncs: bool,
 }
 
 #[derive(Clone, Copy, Debug, PartialEq, Eq, Serialize, Deserialize)]
